@@ -17,6 +17,14 @@ CHECKS = {
    technique="runtime monitoring: parsed group_by cells per page vs an independent suppression rule; exception class observed for non-contiguous keys; exhaustive small key sequences",
    text="All key sequences over {a,b,null} up to the stated lengths for 1-3 group_by levels are rendered by the real library at several page sizes; the parsed group_by cells must be blank exactly for true repeats not at a page start; non-contiguous keys must raise ValueError and contiguous ones must not. Random longer sequences with int/str keys and page_by/subline_by on other columns widen the reach.",
    note="trusted: reader; page starts are taken from the parsed output (first data row of each page)"),
+ "C16": dict(cat="exploration", ref="5/C16",
+   technique="runtime monitoring: picture destinations of the parsed output compared with the generated image files",
+   text="Generated PNG/JPEG/EMF files (arbitrary dimensions in their headers, payload lengths around the hex line wrap) are embedded by the real library; the parsed picture payload must equal the file bytes, with the format's blip word, the pixel size from the image header, the configured display size per position (last value reused) and captions on exactly the selected pages.",
+   note="trusted: reader; EMF pixel size only required to be positive; display size within 1 twip"),
+ "C17": dict(cat="exploration", ref="5/C17",
+   technique="runtime monitoring: parsed page signatures of the assembled file vs those of each input file",
+   text="1..6 real rtflite outputs (tables, multi-section, figure documents, mixed geometry, coloured or not) are written with write_rtf and combined with assemble_rtf; the assembled file must parse without structural/lexical error, its page-signature sequence must be the concatenation of the inputs', and each input's first page must restate that input's geometry; degenerate calls (single, empty, missing input) are observed on the file system.",
+   note="trusted: reader; page signature = ordered block kinds, texts, cell boundaries, picture hashes"),
  "C19": dict(cat="exploration", ref="5/C19",
    technique="runtime monitoring: exception class observed at the real constructors for generated invalid configurations",
    text="Each validated field of every component class is driven with one invalid value at a random position of a scalar / flat / nested container among valid values (plus the structural cases); the monitor records the exception class raised by the real constructor. Each case has a valid twin that must be accepted, so the generator cannot hide behind its own invalid surroundings.",
